@@ -146,7 +146,7 @@ def run_c12(tier):
 
 
 def run_c17(tier):
-    return A('C17', ['fq4', 'fq12', 'fq12_inv'], tier) + Ld('C17', ['L-sop4'], tier)
+    return A('C17', ['fq4', 'fq12', 'fq12_inv', 'exponents'], tier) + Ld('C17', ['L-sop4'], tier)
 
 
 def run_c09(tier):
@@ -174,7 +174,7 @@ def run_c13(tier):
     S = k_conv_specs()
     if tier == 'thorough':
         S.append(K('conv::k_conv_from_str3_fr', 'Fr::from_str on all valid UTF-8 strings of <= 3 bytes', ['Fr::from_str'], '<= 3 bytes', [MODEL]))
-    return kani.decide('C13', S, tier, pool=8) + Ld('C13', ['L-enc-q', 'L-enc-r', 'L-dec-q', 'L-dec-r', 'L-const'], tier)
+    return kani.decide('C13', S, tier, pool=8) + Ld('C13', ['L-enc-q', 'L-enc-r', 'L-dec-q', 'L-dec-r', 'L-const', 'L-divrem-q', 'L-divrem-r', 'L-divrem-r-1'], tier)
 
 
 def run_c08(tier):
@@ -186,7 +186,7 @@ def run_c08(tier):
 def run_c07(tier):
     S = sel(k_lin_specs(), ['k_lin_']) + sel(k_conv_specs(), ['k_conv_from_slice', 'k_conv_interpret', 'k_conv_from_hash', 'k_conv_from_str', 'k_random', 'k_setbit_fr', 'k_cmp_eq', 'k_conv_fq2_from_slice', 'k_conv_roundtrip'])
     import lengine
-    L = [o for o in Ld('C07', lengine.MUL + lengine.SOP[:1], tier) if o.name.endswith('-range') or o.name.startswith('L-const')]
+    L = [o for o in Ld('C07', lengine.MUL + lengine.SOP[:1] + lengine.DIV, tier) if o.name.endswith('-range') or o.name.startswith('L-const') or o.name.startswith('L-divrem')]
     return kani.decide('C07', S, tier, pool=8) + L
 
 
@@ -197,7 +197,7 @@ def run_c10(tier):
 
 def run_c11(tier):
     import lengine
-    return A('C11', ['fq12_gt', 'fq12_inv'], tier) + skel('C11', tier, ('fq12',)) + kani.decide('C11', k_gt_specs(), tier, pool=4)
+    return A('C11', ['fq12_gt', 'fq12_inv', 'exponents'], tier) + skel('C11', tier, ('fq12',)) + kani.decide('C11', k_gt_specs(), tier, pool=4)
 
 
 def run_c16(tier):
@@ -207,7 +207,7 @@ def run_c16(tier):
 def run_c18(tier):
     S = k_lin_specs() + sel(k_conv_specs(), ['k_bytes', 'k_conv_to_big_endian', 'k_setbit', 'k_conv_fq2_from_slice']) + sel(k_dec_specs(), ['k_dec_', 'k_declen_'])
     import lengine
-    return kani.decide('C18', S, tier, timeout_s=1500 if tier == 'quick' else 3600, pool=6) + Ld('C18', lengine.LIN, tier)
+    return kani.decide('C18', S, tier, timeout_s=1500 if tier == 'quick' else 3600, pool=6) + Ld('C18', lengine.LIN + lengine.DIV, tier)
 
 
 PROPS = {
@@ -225,7 +225,7 @@ PROPS = {
     'C04': dict(run=run_c04, level='proof', trusted_base=ATRUST, not_covered=['associativity as such (a theorem about the curve once + is the chord-and-tangent law)'], explanation=''),
     'C15': dict(run=run_c15, level='proof', trusted_base=ATRUST, not_covered=['separating P from -P uses: no point of order two (group orders are odd)'], explanation=''),
     'C12': dict(run=run_c12, level='proof', trusted_base=ATRUST + KTRUST, not_covered=['lazy-reduction multiplier sum_of_products::<2> (engine L, pending integration)'], explanation=''),
-    'C17': dict(run=run_c17, level='proof', trusted_base=ATRUST, not_covered=['final exponentiation exponent (variant E, pending)', 'line functions (pending)', 'composition of the 65 Miller iterations'], explanation=''),
+    'C17': dict(run=run_c17, level='proof', trusted_base=ATRUST, not_covered=['line functions (eval_g_tangent, eval_g_line, g_tangent, g_line, point_pi*, q_power_frobenius)', 'composition of the 65 Miller iterations / agreement of the two Miller loops'], explanation=''),
     'C09': dict(run=run_c09, level='proof', trusted_base=ATRUST + KTRUST, not_covered=['that r*P = O characterises the order-r subgroup of the twist (cofactor coprime to r): number theory, trusted',
                 'the 256-step subgroup scalar multiplication is followed along its generic path; its correctness is C05 + C04'], explanation=''),
     'C16': dict(run=run_c16, level='proof', trusted_base=ATRUST, not_covered=['scalar multiplication steps (C05)', 'pairing observers (C03)'], explanation='inductive-step argument: every operation, from ARBITRARY representatives (including non-canonical identities (x, y, 0)), returns a representative of the right group element and every observer depends only on the element'),
